@@ -127,4 +127,40 @@ def progOkb (gapSym : Nat) (seqs : List (List Nat)) (steps : List PStep) : Bool 
 
 def rectb (msa : List (List Nat)) : Bool := msa.all fun r => r.length == width msa
 
+/-! ### `_update_alignments`: from the internal matrix (unique sequences, position numbers) to the rows of all inputs
+
+An entry of the internal matrix is `none` (the gap `'X'`) or `some p`: the number `i.p` of position `p`
+(0-based here) of the unique sequence `i`.  For every input `j` that is represented by the unique
+sequence `i` (`int2ext[i]`), the row of `j` is the internal row with position `p` replaced by token `p`
+of input `j` and the gap by `'-'`. -/
+
+def extRow {T : Type} (gap : T) (toks : List T) (row : List (Option Nat)) : List T :=
+  row.map fun c => match c with
+    | none => gap
+    | some p => toks.getD p gap
+
+/-- `alm_matrix = [0] * n; for i, line in enumerate(_alm_matrix): for j in int2ext[i]: alm_matrix[j] = …`
+(a later assignment overwrites an earlier one; an index that is never assigned keeps the empty row) -/
+def updateAlignments {T : Type} (gap : T) (tokens : List (List T)) (internal : List (List (Option Nat)))
+    (int2ext : List (List Nat)) : List (List T) :=
+  let assigns : List (Nat × List T) :=
+    (internal.zip int2ext).flatMap fun p => p.2.map fun j => (j, extRow gap (tokens.getD j []) p.1)
+  (List.range tokens.length).map fun j => ((assigns.reverse.find? fun a => a.1 == j).map (·.2)).getD []
+
+/-- the representative an input is listed under (first match) -/
+def clsOf (int2ext : List (List Nat)) (j : Nat) : Nat :=
+  ((List.range int2ext.length).find? fun i => (int2ext.getD i []).contains j).getD 0
+
+/-- decidable hypotheses of `C04_update` on observed data: every input is listed under exactly one
+representative (which has an internal row), the internal rows have one length, the non-gap entries of
+the representative's row are the positions of the input in order, no token is the gap symbol -/
+def updateOkb {T : Type} [BEq T] (gap : T) (tokens : List (List T)) (internal : List (List (Option Nat)))
+    (int2ext : List (List Nat)) : Bool :=
+  (List.range tokens.length).all (fun j =>
+    ((List.range int2ext.length).filter fun i => (int2ext.getD i []).contains j).length == 1 &&
+    decide (clsOf int2ext j < internal.length) &&
+    (internal.getD (clsOf int2ext j) []).filterMap id == List.range (tokens.getD j []).length &&
+    !(tokens.getD j []).contains gap) &&
+  internal.all fun r => r.length == (internal.headD []).length
+
 end Verif.MSA
